@@ -228,7 +228,11 @@ pub fn run(tier: Tier) -> i32 {
         if j.de.is_some() {
             locales.push("de");
         }
-        let mut cfg = Config::simple("en", &locales);
+        // the order the locales are declared in is not part of the data: the job index picks one of the n! orders
+        // (the default first, in the middle, last)
+        let perms = vmodel::enumerate::permutations(locales.len());
+        let declared: Vec<&str> = perms[i % perms.len()].iter().map(|k| locales[*k]).collect();
+        let mut cfg = Config::simple("en", &declared);
         cfg.inherits = j.inherits.clone();
         if j.ns {
             cfg = cfg.with_namespaces(&["one", "two"]);
@@ -267,7 +271,7 @@ pub fn run(tier: Tier) -> i32 {
         rep.sample(json!({"project": s}));
     }
     let mut cov = serde_json::Map::new();
-    cov.insert("rule".into(), json!("default locale en holds {a, b, g.x, g.y, g.h.z, p_one/p_other}; per non-default locale every combination of: a in {value,null,absent}; g in {absent, null, value (swap), group with x,y in {value,null,absent} and h in {absent,null,value (swap), group with z in 3 states}}; p in {forms, null, absent, only p_one, plain value, only p_other}; surplus in {none, value, group, plural pair, inside g, default's value b as a group, a key ending in _other}; the default locale also holds a plain key `kind_other`; x inherits {none, explicit to default} x {no namespaces, two namespaces with different patterns}; thorough adds a third locale (reduced pattern set) with every inherits map; oracle: exact multiset of MissingKey/SurplusKey/UnusedForm diagnostics, accessible key set == default's keys in every locale, SubKeyMissmatch for swaps, and every key rendered in every locale"));
+    cov.insert("rule".into(), json!("default locale en holds {a, b, g.x, g.y, g.h.z, p_one/p_other}; per non-default locale every combination of: a in {value,null,absent}; g in {absent, null, value (swap), group with x,y in {value,null,absent} and h in {absent,null,value (swap), group with z in 3 states}}; p in {forms, null, absent, only p_one, plain value, only p_other}; surplus in {none, value, group, plural pair, inside g, default's value b as a group, a key ending in _other}; the default locale also holds a plain key `kind_other`; x inherits {none, explicit to default} x declared order of the locales (every permutation, rotating with the job index: the default first / in the middle / last) x {no namespaces, two namespaces with different patterns}; thorough adds a third locale (reduced pattern set) with every inherits map; oracle: exact multiset of MissingKey/SurplusKey/UnusedForm diagnostics, accessible key set == default's keys in every locale, SubKeyMissmatch for swaps, and every key rendered in every locale"));
     cov.insert("exhaustive".into(), json!(true));
     cov.insert("outcome_classes".into(), json!(*classes.lock().unwrap()));
     cov.insert("suppress_key_warnings_build".into(), json!(cfg!(feature = "suppress")));
